@@ -49,6 +49,15 @@ func c01Cells(tier string) []Cell {
 					}
 
 					cells = append(cells, Cell{ID: c.ID()})
+
+					// The bench/failover.go usage pattern: one key buffer reused for the next Get while the
+					// background build of the previous key may still be running, next to a plain Get of the second key.
+					if sc == "o" || sc == "f" {
+						r := c
+						r.Init, r.FailC, r.Callout = init+"A", "00", false
+						r.Threads = [][]GOp{{{Key: 0, Reuse: true}, {Key: 1, Reuse: true}}, {{Key: 1}}}
+						cells = append(cells, Cell{ID: r.ID()})
+					}
 				}
 			}
 		}
